@@ -62,6 +62,7 @@ type cpCase struct {
 	Point               string // which clock call
 	Nth                 int    // which occurrence of it (1-based)
 	Step                string // end | end+1ms | half-then-end
+	StepFirst           bool   // the injected goroutine steps the clock beyond MaxDelay before its Add
 }
 
 func (c cpCase) String() string { return fmt.Sprintf("coalescing.clockpoint%+v", cpPlain(c)) }
@@ -110,7 +111,16 @@ func runClockPoint(t *testing.T, c cpCase) (fired bool, err error) {
 			mu.Unlock()
 			done := make(chan struct{})
 			iwg.Add(1)
-			go func() { defer iwg.Done(); rl.Add(); close(done) }()
+			go func() {
+				defer iwg.Done()
+				if c.StepFirst {
+					// the loop is inside a handler (it is making this clock call): fire whatever timer is armed AND let
+					// an Add arrive, so that the loop finds both its timer and its input ready when it selects again
+					fake.Step(max + time.Millisecond)
+				}
+				rl.Add()
+				close(done)
+			}()
 			for i := 0; i < 3000; i++ {
 				select {
 				case <-done:
@@ -144,6 +154,9 @@ func runClockPoint(t *testing.T, c cpCase) (fired bool, err error) {
 		errs.Go(func() { defer wg.Done(); _ = rl.Run(ctx, ch) })
 		synctest.Wait()
 		for i := 0; i < c.Adds; i++ {
+			if injected.Load() {
+				break // the injected Add stays the LAST one: a later Add's signal would cover a lost one (coalescing), and nobody could tell
+			}
 			mu.Lock()
 			nadds++
 			mu.Unlock()
@@ -197,6 +210,7 @@ func TestCoalescingClockCallPoints(t *testing.T) {
 			Adds: rapid.IntRange(1, 4).Draw(rt, "adds"), Point: rapid.SampledFrom(points).Draw(rt, "point"), Nth: rapid.IntRange(1, 4).Draw(rt, "nth"),
 			Step: rapid.SampledFrom([]string{"end", "end+1ms", "half-then-end"}).Draw(rt, "step")}
 		c.MaxExtra = genMaxExtra(rt, c.InitMS)
+		c.StepFirst = rapid.Bool().Draw(rt, "stepFirst")
 		fired, err := runClockPoint(t, c)
 		if err != nil {
 			rt.Fatalf("C09 coalescing rate limiter violated: %v\ncase: %s", err, c)
